@@ -295,8 +295,15 @@ class DispatchingShell(cmd.Cmd):
                 value = self.settings.getstr(name)
                 print(f'{name}: {value}', file=self.outfile)
         else:
-            components = shlex.split(arg)
+            try:
+                components = shlex.split(arg)
+            except ValueError as ex:
+                self.error(str(ex))
+                return
             name = components[0]
+            if name not in self.settings:
+                self.error(f'variable "{name}" does not exist')
+                return
             if len(components) == 1:
                 try:
                     value = self.settings.getstr(name)
